@@ -1,11 +1,11 @@
 //! Kani harnesses for the shared handles of src/channel/mpmc.rs (hooked inside `if_alloc::shared`): lifecycle C11.
 //! GROUP: mpmc_shared
 //! MODULE: channel::mpmc::if_alloc::shared::kani_verif_shared
-//! TAGS: C01 C08 C09 C11 C17 C18
+//! TAGS: C01 C08 C09 C10 C11 C17 C18
 //! N: quick=4 thorough=4
 //! UNWIND_EXTRA: 3
 //! KIND: harness (loop-free handle code; full-domain handle counters)
-//! BOUNDED: clone: full usize domain of the handle counter; drop: counter values 1, 2, isize::MAX; capacity 2; no waiters queued
+//! BOUNDED: clone: full usize domain of the handle counter; drop: counter values 1, 2, isize::MAX; capacity 2; at most one future waiting
 //! clone/drop of the handles are loop-free, so a symbolic counter over the whole usize range makes each of these a
 //! complete check of the function; "count == number of live handles" then follows by induction over clone/drop.
 use super::*;
@@ -33,6 +33,42 @@ fn fresh_pair_counts_one_handle_per_side() {
     assert!(s.inner.receivers.load(Ordering::Relaxed) == 1, "[C11] a new shared channel counts exactly one receiver handle");
     assert!(!closed(&s), "[C11] a new shared channel is open");
     assert!(s.inner.channel.inner.lock().buffer.capacity() == 2, "[C09] the requested capacity is the channel's capacity");
+    core::mem::forget((s, r));
+}
+
+/// try_send / try_receive through the shared handles are the channel's: the waker they get back is really woken
+#[kani::proof]
+fn shared_try_send_wakes_the_pending_receiver() {
+    use core::future::Future;
+    let (s, r) = pair();
+    let w0 = kit::waker(0);
+    let mut cx = core::task::Context::from_waker(&w0);
+    let mut rf = core::mem::ManuallyDrop::new(r.receive());
+    let p = unsafe { core::pin::Pin::new_unchecked(&mut *rf) }.poll(&mut cx);
+    assert!(p.is_pending());
+    let v: u8 = kani::any();
+    let res = s.try_send(v);
+    assert!(res.is_ok(), "[C09] try_send succeeds on an open channel with room");
+    assert!(kit::wakes(0) == 1 && kit::total_wakes() == 1, "[C10] a value sent through the shared sender's try_send wakes the pending receiver exactly once, through its latest waker");
+    let p = unsafe { core::pin::Pin::new_unchecked(&mut *rf) }.poll(&mut cx);
+    assert!(matches!(p, core::task::Poll::Ready(Some(x)) if x == v), "[C08] the woken receiver gets exactly that value");
+    core::mem::forget((s, r));
+}
+
+#[kani::proof]
+fn shared_try_receive_wakes_the_pending_sender() {
+    use core::future::Future;
+    let (s, r) = pair();
+    let _ = s.try_send(1);
+    let _ = s.try_send(2);
+    let w1 = kit::waker(1);
+    let mut cx = core::task::Context::from_waker(&w1);
+    let mut sf = core::mem::ManuallyDrop::new(s.send(3));
+    let p = unsafe { core::pin::Pin::new_unchecked(&mut *sf) }.poll(&mut cx);
+    assert!(p.is_pending(), "[C09] a send on a full channel waits");
+    let got = r.try_receive();
+    assert!(matches!(got, Ok(1)), "[C09] [C08] try_receive through the shared receiver returns the oldest value");
+    assert!(kit::wakes(1) == 1 && kit::total_wakes() == 1, "[C10] the parked sender whose value was accepted is woken exactly once, through its latest waker");
     core::mem::forget((s, r));
 }
 
